@@ -41,8 +41,8 @@ def run(ctx, db, tier):
     shared.set_then_resolve_min(ctx, db, 'C02.not-before-result')
 
 
-def subscribe_protocol(ctx, db):
-    rid = ctx.rule('C02.subscribe-protocol', 'PATHS', 'awaiter::subscribe_check_ready: the slot is written only by a CAS whose desired value is this; true is returned only on the '
+def subscribe_protocol(ctx, db, rid='C02.subscribe-protocol'):
+    rid = ctx.rule(rid, 'PATHS', 'awaiter::subscribe_check_ready: the slot is written only by a CAS whose desired value is this; true is returned only on the '
                    'CAS success edge; every failed attempt compares the observed value with the ready marker and equality returns false; a refusal leaves _next null '
                    '(the awaiter stays reusable)', floor=4)
     for f, trs in traces_of(db, 'cocls::awaiter::subscribe_check_ready', per_instance=False, maxvisit=3):
@@ -136,8 +136,8 @@ def _keys(db, name):
     return out
 
 
-def walk(ctx, db):
-    rid = ctx.rule('C02.walk', 'ORDER+NO-TOUCH', 'chain walkers (awaiter::resume_chain_lk, mutex::unlock): nothing reachable from a node (or an alias of it) is read or written after '
+def walk(ctx, db, rid='C02.walk'):
+    rid = ctx.rule(rid, 'ORDER+NO-TOUCH', 'chain walkers (awaiter::resume_chain_lk, mutex::unlock): nothing reachable from a node (or an alias of it) is read or written after '
                    'the node has been resumed / handed over - its owner may already be gone', floor=2)
     for name, is_resume in (('cocls::awaiter::resume_chain_lk', lambda ev: ev.k == 'call' and norm(ev.get('callee')) == 'cocls::awaiter::resume'),
                             ('cocls::mutex::unlock', lambda ev: ev.k == 'call' and (ev.get('recv') == 'param:fn' or norm(ev.get('callee')) == 'cocls::awaiter::resume'))):
